@@ -263,6 +263,10 @@ def run(ctx: vlib.Ctx):
                 except Exception as e:
                     ctx.known_reproduced.append((f, f"canonical text rejected: {type(e).__name__}"))
         cases = []
+        for cf in sorted((vlib.VERIF / "corpus" / ctx.prop).glob("*.json")):       # corpus first
+            cj = json.loads(cf.read_text())
+            cases.append((cj["schema"], H.to_tuples(cj["tree"]), [tuple(x) for x in cj.get("meta", [])]))
+            ctx.count("corpus")
         for name in [s["name"] for s in specs]:
             sd = sds[name]
             metas = [[("TYPE", "X"), ("VERSION", "1")], [("TYPE", "X")], [("TYPE", "X"), ("VERSION", "1"), ("STATUS", "active"), ("EXTRA", "y")], []]
@@ -270,7 +274,12 @@ def run(ctx: vlib.Ctx):
                 vals = [v for v in H.field_value_pool(fd, api=False) if H.text_safe(v)]
                 k = min(len(vals), 30) if (wide and name in hand_names) else ctx.budget(5, 8)
                 for v in (vals if k >= len(vals) else rng.sample(vals, k)):
-                    cases.append((name, H.doc_one_field(sd, fname, v, nested=rng.random() < 0.3, second_block=rng.random() < 0.15), rng.choice(metas)))
+                    t = H.doc_one_field(sd, fname, v, nested=rng.random() < 0.3, second_block=rng.random() < 0.15)
+                    m = rng.choice(metas)
+                    if H.tree_text_safe(t):
+                        cases.append((name, t, m))
+                    else:
+                        ctx.count("skip:generator-restriction")
             for _ in range(ctx.budget(12, 50) if name in hand_names else ctx.budget(4, 10)):
                 t = H.random_doc(rng, sd, api=False)
                 if H.tree_text_safe(t):
